@@ -19,10 +19,36 @@ fn cps(s: &str) -> Vec<u32> {
     s.chars().map(|c| c as u32).collect()
 }
 fn exec_of(argv: &Value) -> Exec {
+    exec_of_how(argv, 0)
+}
+
+/// how = 0: every argument with arg(); 1: the command is shown (Debug, to_cmdline_lossy) after the first argument and
+/// the others are added afterwards with args(); 2: shown after every single addition, alternating arg() / args()
+fn exec_of_how(argv: &Value, how: u64) -> Exec {
     let a = argv.as_array().unwrap();
     let mut e = Exec::cmd(s_of(&a[0]));
-    for x in &a[1..] {
-        e = e.arg(s_of(x));
+    let words: Vec<String> = a[1..].iter().map(s_of).collect();
+    match how {
+        1 => {
+            if let Some(w) = words.first() {
+                e = e.arg(w);
+            }
+            let _ = format!("{:?} {}", e, e.to_cmdline_lossy());
+            if words.len() > 1 {
+                e = e.args(&words[1..]);
+            }
+        }
+        2 => {
+            for (i, w) in words.iter().enumerate() {
+                let _ = format!("{:?} {}", e, e.to_cmdline_lossy());
+                e = if i % 2 == 0 { e.args(&[w.clone()]) } else { e.arg(w) };
+            }
+        }
+        _ => {
+            for w in &words {
+                e = e.arg(w);
+            }
+        }
     }
     e
 }
@@ -55,7 +81,8 @@ fn main() {
                 let hook = std::panic::take_hook();
                 std::panic::set_hook(Box::new(|_| {}));
                 let rendered = std::panic::catch_unwind(|| if stages.len() == 1 {
-                    let mut e = exec_of(&stages[0]);
+                    // "shown_early": the command is shown while it is still being put together
+                    let mut e = exec_of_how(&stages[0], v["shown_early"].as_u64().unwrap_or(0));
                     // "env": the command carries environment settings; they are shown as NAME=value words in front
                     if let Some(l) = v["env"].as_array() {
                         for kv in l {
@@ -67,10 +94,11 @@ fn main() {
                     let x = format!("Exec {{ {} }}", o);
                     (o, d, x, format!("{:#?}", e))
                 } else {
+                    let how = v["shown_early"].as_u64().unwrap_or(0);
                     let mut it = stages.iter();
-                    let mut p: Pipeline = exec_of(it.next().unwrap()) | exec_of(it.next().unwrap());
+                    let mut p: Pipeline = exec_of_how(it.next().unwrap(), how) | exec_of_how(it.next().unwrap(), how);
                     for s in it {
-                        p = p | exec_of(s);
+                        p = p | exec_of_how(s, how);
                     }
                     let d = format!("{:?}", p);
                     let o = d.strip_prefix("Pipeline { ").and_then(|x| x.strip_suffix(" }")).unwrap_or("\u{0}").to_string();
